@@ -94,6 +94,11 @@ def explore(ctx, depth):
     docrun.run_option_sets(ctx, cases, combos, sels,
                            'export with spine selection + category filter + encoding is not the composition of the three single transformations',
                            'composition (grid oracle)', nontriv=nt)
+    # (b1) texts outside the generator's grammar (gen.raw_variants): every option set against the model and the Lean text specification
+    rcases = [c for c in docrun.raw_cases(ctx, [c.adoc for c in cases[:5 if depth == 'quick' else 50]]) if c.doc is not None]
+    docrun.run_option_sets(ctx, rcases, combos[::3] if depth == 'quick' else combos, sels,
+                           'export of a text outside the generator\'s grammar under an option set is not what the model / the text specification says',
+                           'raw text: option sets', spec=False, nontriv=lambda *a: True)
     # (b2) free text with the two separator characters ('@', U+00B7): what the property says about such cells is the open finding F10 (C03 / C04 /
     # C12); here only the correspondence with the model is checked, under every encoding and a few selections
     import copy as _copy
